@@ -463,6 +463,12 @@ class SimulatorBackend(LocalBackend):
         # Process final ``CompleteEvent``
         self._time_keeper.advance_to(time_complete + 1e-3)
         self._process_events_until_now()
+        # Results the trial reported between the decision to stop or pause it
+        # and the ``StopEvent`` must not be delivered anymore, in particular
+        # not once a paused trial has been resumed
+        stale_results = self._next_results_to_fetch.pop(trial_id, None)
+        if stale_results:
+            self._last_metric_seen_index[trial_id] += len(stale_results)
         self._time_keeper.mark_exit()
 
     def _run_job_and_collect_results(
